@@ -173,6 +173,8 @@ class Net:
             # exactly what CPython's socket.getaddrinfo does with a str host before it resolves anything: an empty or
             # over-long label makes this raise UnicodeError, not gaierror
             host.encode("idna")
+            if "\x00" in host:
+                raise ValueError("embedded null character")  # CPython's argument conversion, before any lookup
         try:
             port = int(port)
         except (TypeError, ValueError):
